@@ -509,7 +509,7 @@ class C06(Monitor):
     def on_step(self, st):
         w, acc = self.w, self.acc
         op = st.op
-        if op["kind"] != "swap" or not op["sem"].get("well_formed"):
+        if op["kind"] != "swap" or not C12.same_offer(op):
             return
         sem = op["sem"]
         p = sem["pair"]
